@@ -94,10 +94,12 @@ func sanitizersForAttributeValue(c context) ([]string, error) {
 	}
 	// ret is a stack of sanitizer names that will be built in reverse.
 	var ret []string
-	// All attribute values must be HTML-escaped at run time by sanitizeHTML to eliminate
-	// any HTML markup that can cause the HTML parser to transition out of the attribute value state.
+	// All attribute values must be HTML-escaped at run time to eliminate any HTML markup that
+	// can cause the HTML parser to transition out of the attribute value state. sanitizeRCDATA
+	// is used rather than sanitizeHTML because the latter passes a safehtml.HTML value through
+	// unescaped, which would let it terminate the attribute value.
 	// These attribute values will later be HTML-unescaped by the HTML parser in the browser.
-	ret = append(ret, sanitizeHTMLFuncName)
+	ret = append(ret, sanitizeRCDATAFuncName)
 	sanitizer := sc0.sanitizerName()
 	if !sc0.isURLorTrustedResourceURL() {
 		return reverse(appendIfNotEmpty(ret, sanitizer)), nil
